@@ -231,6 +231,30 @@ func execC08(t *testing.T, c any, o *Outcome) {
 		checkCommonEdges(o, swapRec.Text, pc.Ref, pc.Tips)
 		checkCommonEdgesAfterEdit(o, pc.Ref, swapRec.Text, pc.Tips)
 	}
+	// history: the reference is indexed, cloned, the clones are edited (two tip names exchanged) and compared with it
+	if !pc.Identical {
+		cl := *pc
+		cl.Recs, cl.Feed = nil, "chan"
+		for k := 0; k < 6; k++ {
+			cl.CloneSwaps = append(cl.CloneSwaps, [2]int{pc.SwapIdx + k, pc.SwapIdx + 2*k + 1 + pc.BufSz%3})
+		}
+		cgot := runPipe(t, &cl, 1, seqSched(), 4_000_000)
+		o.Steps += int64(cgot.Sched.Steps)
+		if liveness(o, cgot, pc.Algo+" (clones of the reference)") {
+			if cgot.Err != nil {
+				o.Fail("unexpected-error:"+pc.Algo+":clones", "%s fails on edited clones of the reference: %v\n  ref %s", pc.Algo, cgot.Err, pc.Ref)
+			} else {
+				o.Probe("clone-edit-compare")
+				for i, text := range cgot.CloneTexts {
+					r, ok := cgot.Recs[i]
+					checkCompareRecord(o, &cl, pc.Algo+", compared tree = clone of the indexed reference with two tip names exchanged", pc.Ref, Rec{Text: text}, r, ok)
+					if len(o.Viols) > 0 {
+						break
+					}
+				}
+			}
+		}
+	}
 	if pc.Chunk == 1 && len(o.Viols) == 0 {
 		checkCompareCLI(t, o, pc)
 	}
